@@ -409,6 +409,35 @@ def done_status_type_agrees(ctx, rid):
 
 
 # ------------------------------------------------------------------------------------------------
+# R3.10  a merely uncertain target is never built on the spot (F-R)
+
+def uncertain_is_not_built_directly(ctx, rid):
+    ctx.rule(rid, "BuildJob::start runs the target's own .do only on a Dirty verdict: a NeedTargets verdict (some checksummed dependency *may* have changed) is settled first and the target re-evaluated, so that an unchanged checksum below stops the rebuild at any depth")
+    prog = ctx.prog
+    J = anchors.job_start(prog)
+    SS = anchors.start_self(prog)
+    jba = BA.of(J)
+    dv = {v["name"]: v["discr"] for v in prog.adts["deps::Dirtiness"]["variants"]}
+    sws = [(sw, jba.enum_switch(sw)) for sw in sorted(jba.live)]
+    sws = [(sw, es) for sw, es in sws if es and J.locals[es[0]["l"]] == "deps::Dirtiness"]
+    if not sws:
+        raise AnchorError("no switch on the Dirtiness verdict in %s" % J.key)
+    starts = jba.calls(re.escape(SS.key))
+    if not ctx.floor(rid, "calls of the .do-running body from the verdict dispatcher", len(starts), 1):
+        return
+    for sw, es in sws:
+        nt = es[1].get(dv["NeedTargets"], es[2])
+        for k, c in common.ordinal_keys([("start_self", c) for c in starts]):
+            under_nt = jba.edge_dominates((sw, nt), c)
+            if not under_nt:
+                continue
+            ctx.ob(rid, "%s|NeedTargets-arm|uncertain-verdict-builds-the-target" % J.key, False, where=ctx.where(J, c),
+                   detail="on the NeedTargets arm (REDO_NO_OOB side: the second phase of redo-unlocked and everything below it) the target is built at once although its checksummed dependencies are only *possibly* changed: with checksummed targets nested two deep (top -> mid -> leaf) a change of leaf that leaves mid's checksum unchanged still re-runs top.do")
+    ctx.ob(rid, "%s|Dirty-arm-builds" % J.key, any(jba.edge_dominates((sw, es[1].get(dv["Dirty"], es[2])), c) for sw, es in sws for c in starts), where=J.span,
+           detail="the Dirty arm runs the .do")
+
+
+# ------------------------------------------------------------------------------------------------
 # R10.8  the output is moved into place while the transaction that records it is open
 
 def rename_inside_result_transaction(ctx, rid):
@@ -634,7 +663,7 @@ TABLE = {
     "C02": [("R2.7", every_candidate_leaves_an_edge),
             ("R2.8", borrow("C03", "R3.2", None, "a build wrongly taken for a stamped one never advances changed_runid: the target and its dependents then re-run on every later redo-ifchange"))],
     "C13": [("R13.6", every_candidate_leaves_an_edge), ("R13.7", check_never_refreshes_stamps)],
-    "C03": [("R3.9", signal_death_is_failure)],
+    "C03": [("R3.9", signal_death_is_failure), ("R3.10", uncertain_is_not_built_directly)],
     "C05": [("R5.8", signal_death_is_failure),
             ("R5.9", borrow("C01", "R1.3", None, "the edge to a requested target must exist even when that target then fails, or the caller is not dirty next run and the failed target is never retried")),
             ("R5.10", memo_after_failed_test)],
